@@ -29,11 +29,12 @@ def struct_cpp(i, s):
     o.append("  static constexpr const char * key = \"%s\";" % s.short())
     o.append("  static constexpr int depth = %d;" % s.depth())
     o.append("  static const vp::FLayer * fl() { %s return f; }" % g.format_cpp(s, "f"))
-    v1, v2, v3 = g.with_cfgvar(s, 1), g.with_cfgvar(s, 2), g.with_cfgvar(s, 3)
+    v1, v2, v3, v4 = g.with_cfgvar(s, 1), g.with_cfgvar(s, 2), g.with_cfgvar(s, 3), g.with_cfgvar(s, 4)
     o.append("  static covfie::field<B> make(int var) {")
     o.append("    if (var == 1) return %s;" % v1.make_expr())
     o.append("    if (var == 2) return %s;" % v2.make_expr())
     o.append("    if (var == 3) return %s;" % v3.make_expr())
+    o.append("    if (var == 4) return %s;" % v4.make_expr())
     o.append("    return %s;" % s.make_expr())
     o.append("  }")
     if arr_idx:
